@@ -681,6 +681,19 @@ func (io *IO) In(addr uint8) uint8 {
 		return
 	}""")], note="a polling program does not flood the log: one warning per (direction, port) and machine")
 
+# ---- seventh informed review: legitimate variants that alarmed (must stay quiet now) ------------------
+mutant("tinycpm-warm-boot-resets-the-stack", [], quiet=["C18"], edits=[("internal/tinycpm/tinycpm.go", """	0xc3, 0x03, 0xff, 0x00, 0x00, 0xc3, 0x06, 0xfe,
+}""", """	0xc3, 0x00, 0xff, 0x00, 0x00, 0xc3, 0x06, 0xfe,
+}
+
+// warm boot: re-initialise the stack, then stop.
+var biosFF00 = []byte{
+	0x31, 0x00, 0xff, // LD SP,0FF00h
+}"""), ("internal/tinycpm/tinycpm.go", """	m.put(0xff03, biosFF03...)
+	return m""", """	m.put(0xff00, biosFF00...)
+	m.put(0xff03, biosFF03...)
+	return m""")], note="JP 0 -> JP FF00: LD SP,FF00 ; HALT at FF03 - what CP/M's warm boot does; SP is promised intact where the BDOS calls return, not after the jump to 0")
+
 def run(cmd, **kw):
     return subprocess.run(cmd, stdout=subprocess.PIPE, stderr=subprocess.STDOUT, text=True, **kw)
 
